@@ -20,8 +20,8 @@ func init() {
 		ID: "C08", Level: "fault_enumeration",
 		Rule: "the case list is the product statement kind {INSERT values, INSERT select, UPDATE, multi-table UPDATE, DELETE, REPLACE values, REPLACE select, CREATE TABLE AS, ALTER ADD DEFAULT, UPDATE with a user function} x failure kind {integer division by zero in row k, wrong row length in the k-th VALUES row, sub-query returning two rows from row k on, user function TRIGGERing ERROR at its k-th call, ambiguous joined update, unknown field, context cancellation at the k-th worker-hook hit} x k in {first, second, middle, last-1, last} x table state {never loaded, loaded by SELECT, loaded FOR UPDATE, already dirty, temporary table} x size {5, 200 rows with --cpu 4}, walked completely (invalid combinations are skipped). " +
 			"Each case runs in one real in-process transaction: snapshot (typed SELECT * of every table + directory listing), the failing statement (must return an error, else the case is trivial), SELECT * again == snapshot, no new file or control file, then COMMIT and reload from disk in a fresh session == snapshot (bytes identical when nothing had been changed before). non-trivial = the statement really failed; distinct = the combination.",
-		Quick: 3500, Thorough: 10500, FloorQuick: 500, FloorThorough: 1500, Exhaustive: true,
-		Assumptions: []string{"cancellation is injected through the worker hook (cancel the statement's context at the k-th hit); other failures are produced by the data", "thorough = the same product at three seeds (table contents differ)"},
+		Quick: 3500, Thorough: 105000, FloorQuick: 500, FloorThorough: 15000, Exhaustive: true,
+		Assumptions: []string{"cancellation is injected through the worker hook (cancel the statement's context at the k-th hit); other failures are produced by the data", "thorough = the same product at thirty seeds (table contents differ)"},
 		Setup:       func(w *core.Worker) { core.HermeticProcess(w.Work) },
 		Fn:          c08Case,
 	})
